@@ -579,7 +579,7 @@ def symfit_cfgs(tier, seed, faults=False):
         # rational functions of alpha), planted afresh at every evaluation
         two = [dict(p=1, patience=1), dict(p=2, patience=2, salt=1 + seed % 3)]
         if tier == "thorough":
-            two += [dict(p=1, n=4, patience=3, salt=2, w="none")]
+            two += [dict(p=1, n=4, patience=3, salt=2, w="none"), dict(p=1, patience=2, eps="sym"), dict(p=2, patience=2, salt=1, eps="neg")]
             two += [dict(p=1, patience=pt, salt=sl, useed=us) for pt in (2, 4) for sl in (3, 4) for us in (2, 3)]
             two += [dict(p=2, patience=pt, salt=sl, n=nn) for pt in (1, 3) for sl in (5, 6) for nn in (5, 6)]
         for sh in two:
